@@ -200,6 +200,79 @@ def vector_nth(ctx, core):
                   witness=True, outside="variable-size elements (vint-prefixed; the loop of nth over them)", replay=lambda m, which=which: replay_nth(m, which))
 
 
+def vector_deserialize(ctx, core, reg):
+    """`VectorIterator::<T>::deserialize`: setting the iterator up from a type and a cell"""
+    name = "c08_vector_iterator_setup_never_panics_and_takes_count_and_size_from_the_type"
+    if ctx.skip(name):
+        return
+    fn = core.find(r"value\.rs[^>]*>::deserialize\(_1: &ColumnType<'_>, _2: Option<FrameSlice<'_>>\) -> Result<VectorIterator<")
+    ct = reg.get("ColumnType")
+    dim, el, ln = z3.Ints("dimensions element_length cell_bytes")
+    fixed, null = z3.Bools("element_has_fixed_size cell_is_null")
+    U = 1 << 64
+    pre = [dim >= 0, dim <= 65535, el >= 0, el < U, ln >= 0, ln < (1 << 31)]
+    fields = ct.fields("Vector")
+    f = [None, None]
+    f[fields.index("typ")] = Tup([Tup([Ref(Cell(Opaque("element-type")))], "Unique")], "Box")
+    f[fields.index("dimensions")] = Int(dim, 16, False)
+    typ = Enum(Int(iv(ct.discr("Vector")), 64, True), {ct.discr("Vector"): Tup(f)}, ct.variant_map(), ct.name)
+    m = iter_models(z3.BoolVal(True))
+    m[r"(^|::)ColumnType::<'_>::type_size_for_vector$"] = lambda it, p, c, a: Enum(Int(z3.If(fixed, iv(1), iv(0)), 64, True), {1: Tup([Int(el, 64, False)])}, OPTION, "Option")
+    m[r"(^|::)ensure_not_null_frame_slice::<"] = lambda it, p, c, a: Enum(Int(z3.If(a[1].discr.t == 1, iv(0), iv(1)), 64, True), {0: Tup([a[1].payloads[1].f[0]]), 1: Tup([Opaque("null-error")])}, RESULT, "Result")
+    def try_branch(it, p, callee, args):
+        r = args[0]
+        return Enum(Int(z3.If(r.discr.t == 0, iv(0), iv(1)), 64, True), {0: Tup([r.payloads[0].f[0]]), 1: Tup([Opaque("residual")])}, mir.ENUM_VARIANTS["ControlFlow"], "ControlFlow")
+    m[r"^<Result<FrameSlice<'_>, DeserializationError> as Try>::branch$"] = try_branch
+    m[r" as FromResidual<Result<Infallible, DeserializationError>>>::from_residual$"] = lambda it, p, c, a: Enum(Int(iv(1), 64, True), {1: Tup([Opaque("error")])}, RESULT, "Result")
+    m[r"^FrameSlice::<'_>::as_slice$"] = lambda it, p, c, a: Tup([Ref(Cell(Opaque("cell-bytes"))), Int(iv(0), 64, False), Int((sm.deref(a[0]) if isinstance(a[0], Ref) else a[0]).f[0].t, 64, False)], "Slice")
+    m[r"core::slice::<impl \[u8\]>::len$"] = lambda it, p, c, a: Int((sm.deref(a[0]) if isinstance(a[0], Ref) else a[0]).f[0].t, 64, False)
+    m[r"^FrameSlice::<'_>::is_empty$"] = lambda it, p, c, a: Bool((sm.deref(a[0]) if isinstance(a[0], Ref) else a[0]).f[0].t == 0)
+    it = mir.Interp(core, mir.IntBackend(), m, inline=[r"VectorIterator::<.*>::new$"], registry=reg, max_steps=20000)
+    cell = Enum(Int(z3.If(null, iv(0), iv(1)), 64, True), {1: Tup([Tup([Int(ln, 64, False)], "FrameSlice")])}, OPTION, "Option")
+    paths = it.run(fn, [Ref(Cell(typ)), cell], pre)
+    goals, cover = [], []
+    for p in paths:
+        pc = z3.And(p.pc[len(pre):]) if len(p.pc) > len(pre) else z3.BoolVal(True)
+        if p.outcome[0] != "return":
+            goals.append(z3.Not(pc)); continue
+        cover.append(pc)
+        r = p.outcome[1]
+        conj = [z3.Implies(null, r.discr.t == 1)]
+        if 0 in r.payloads and isinstance(r.payloads[0].f[0], Tup) and len(r.payloads[0].f[0].f) >= 5:
+            vi = r.payloads[0].f[0]
+            conj.append(z3.Implies(r.discr.t == 0, z3.And(vi.f[2].t == dim, vi.f[3].discr.t == z3.If(fixed, iv(1), iv(0)),
+                                                          z3.Implies(fixed, vi.f[3].payloads[1].f[0].t == el) if 1 in vi.f[3].payloads else z3.Not(fixed), vi.f[4].f[0].t == ln)))
+        else:
+            conj.append(r.discr.t == 1)
+        goals.append(z3.Implies(pc, z3.And(conj)))
+    goals.append(z3.Or(cover) if cover else z3.BoolVal(False))
+    ctx.prove(name, pre, z3.And(goals), inputs=[dim, el, ln, fixed, null],
+              functions=f"<VectorIterator<T> as DeserializeValue>::deserialize, VectorIterator::new [{VFILE}]",
+              bounds="vector type with ANY dimension (u16) and ANY element size (None, or Some(s) for every usize s, 0 included: vectors of zero-dimension vectors), cell null or of any length "
+                     "< 2^31: no panic; a null cell is an error; an iterator, when produced, has remaining = the dimension, the element size of the type and the whole cell",
+              backend="INT", assumes=LIB + "; ensure_not_null_frame_slice = Ok(slice) iff the cell is not null; type_size_for_vector arbitrary here (decided separately)",
+              witness=True, outside="-", replay=lambda m: replay_setup(m))
+
+
+def replay_setup(m):
+    from . import native
+    el = int(m.get("element_length") or 0); ln = min(int(m.get("cell_bytes") or 0), 64); dim = int(m.get("dimensions") or 0)
+    fixed = bool(m.get("element_has_fixed_size"))
+    nat = native.Native("core")
+    if not fixed:
+        got = nat.ask(f"vecnth UTF8Type {dim} {'00' * ln or '-'} next")
+        used = "text elements"
+    elif el == 0:
+        got = nat.ask(f"vecnth Int32Type 0,{dim} {'00' * ln or '-'} next")
+        used = "vector<vector<int,0>,dim>"
+    else:
+        d0 = max(1, min(el // 4, 65535))
+        got = nat.ask(f"vecnth Int32Type {d0},{dim} {'00' * ln or '-'} next")
+        used = f"vector<vector<int,{d0}>,dim>"
+    nat.close()
+    return native.record("C08", "vector_iterator_setup", {"type_used": used, "dimensions": dim, "cell_bytes": ln, "native": got, "expected": "no PANIC"}, got.startswith("PANIC"))
+
+
 def replay_nth(m, which):
     """native: a nested vector type whose element size is the model's (when it is a product the type grammar can express), decoded cell of the model's length"""
     from . import native
@@ -226,6 +299,7 @@ def replay_nth(m, which):
 
 def run(ctx, core, reg, tier):
     try:
+        vector_deserialize(ctx, core, reg)
         vector_nth(ctx, core)
     except mir.Unsupported as e:
         ctx.add(name="smt:c08_translate_vector_iterator", engine="smt:mir2smt", status="inconclusive", reason="translator rejected the current source: " + str(e), functions=VFILE)
